@@ -145,7 +145,7 @@ fn do_run(script: &Script) -> String {
     match it.run() {
         Ok(()) => {
             let st = it.state();
-            format!("OK:{};{};{};{}", show_items(&st.stack), show_items(&st.alt_stack), show_exec(&st.executed_opcodes), st.codeseparator_offset)
+            format!("OK:R;{};{};{};{}", show_items(&st.stack), show_items(&st.alt_stack), show_exec(&st.executed_opcodes), st.codeseparator_offset)
         }
         Err(_) => "ERR".into(),
     }
